@@ -657,9 +657,11 @@ def gen_unit_cases(ctx, n, budget):
     return cases
 
 
-def unit(ctx, model_ok, n=None, budget=None, kinds_per_case=None):
+def unit(ctx, model_ok, n=None, budget=None, kinds_per_case=None, only_kinds=None):
     """the unit correspondence of Model/Creators.v: every case is written by the real creators (enumeration order and clock
-       controlled) under one spelling of its path and compared byte for byte with the extracted model's prediction"""
+       controlled) under one spelling of its path and compared byte for byte with the extracted model's prediction
+       (only_kinds: restrict the creator variants to this subset of KINDS; kinds_per_case then samples from it)"""
+    pool = [k for k in KINDS if k in only_kinds] if only_kinds else KINDS
     quick = ctx.tier == "quick"
     n = n or (54 if quick else 640)
     budget = budget or (90000 if quick else 300000)
@@ -675,7 +677,7 @@ def unit(ctx, model_ok, n=None, budget=None, kinds_per_case=None):
             absolute = make_case_dir(case_dir, case["payload"], node)
             sp = spellings(case_dir, case["payload"], node, ctx.rng)
             label, cwd, spelling = sp[0] if i % 3 == 0 else ctx.rng.choice(sp)
-            kinds = KINDS if (kinds_per_case is None or not quick) else ctx.rng.sample(KINDS, kinds_per_case)
+            kinds = pool if (kinds_per_case is None or not quick) else ctx.rng.sample(pool, min(kinds_per_case, len(pool)))
             w = wire(node)
             cl = classify(node, pl, case["block"])
             cl.add("spelling: " + label)
@@ -764,6 +766,45 @@ def require_classes(ctx, required=REQUIRED_CLASSES, minimum=2):
     for c in required:
         if ctx.classes.get(c, 0) < minimum:
             ctx.broken.append(f"boundary class '{c}' was hit {ctx.classes.get(c, 0)} times (< {minimum}): the run is not accepted")
+
+
+def unit_for(ctx, model_ok, only_kinds, n, budget, required, kinds_per_case=None, rounds=3):
+    """the unit correspondence restricted to the creator variants a property's theorems speak about: runs unit() (again with
+       fresh cases, at most `rounds` times) until every class of `required` was hit by a real-BLOCK_SIZE case, then demands it"""
+    for _ in range(rounds):
+        unit(ctx, model_ok, n=n, budget=budget, kinds_per_case=kinds_per_case, only_kinds=only_kinds)
+        if all(ctx.classes.get(c, 0) >= 1 for c in required) or ctx.disagreements or ctx.broken:
+            break
+    require_classes(ctx, required, minimum=1)
+    for k in (only_kinds or KINDS):
+        if not ctx.classes.get(f"creator {k}"):
+            ctx.broken.append(f"creator variant {k} was never run by the unit correspondence: the run is not accepted")
+
+
+def replay_disagreements(ctx, data, tag):
+    """replay of a proof-or-correspondence-broken file: re-runs its unit correspondence cases (model vs implementation, byte
+       for byte), prints the other disagreements and the broken obligations; returns 1 when something is still wrong"""
+    import json
+    dis = data.get("disagreements") or ([data] if "what" in data else [])
+    rc = 0
+    for d in dis[:5]:
+        inp = d.get("input") or {}
+        if not (isinstance(inp, dict) and inp.get("kind") == "unit" and "creator" in inp):
+            print(f"[{tag} replay] correspondence case:", json.dumps(d, ensure_ascii=False)[:1500])
+            rc = 1
+            continue
+        model, raw = replay_unit(ctx, inp)
+        same = isinstance(raw, bytes) and model == raw
+        print(f"[{tag} replay] unit correspondence {inp['creator']} on {inp['summary']} spelled {inp['spelling']!r}: "
+              + ("model and implementation agree now" if same else "model and implementation DISAGREE"))
+        if not same:
+            rc = 1
+            print("   ", _diff(model.hex() if model is not None else "ERROR no model output", raw if isinstance(raw, bytes) else b""),
+                  "" if isinstance(raw, bytes) else f"impl raised {raw!r}")
+    for b in data.get("broken") or []:
+        print(f"[{tag} replay] broken obligation:", b[:500])
+        rc = 1
+    return rc
 
 
 def replay_unit(ctx, inp):
